@@ -986,7 +986,8 @@ STALE_LABELS = 'stale-labels:fix_resonance-keeps-the-hybridization-labels'
 
 
 def fix_resonance_leaves_stale_labels(make):
-    """mechanism test of the recorded finding: on the Kekule form of this input fix_resonance() alone moves double bonds and leaves atoms whose stored
+    """regression key of the finding fixed in /repo by ec73a88 (a `fixed` entry of known_findings.d suppresses nothing: reported as a violation
+    under this stable key if the defect returns): on the Kekule form of this input fix_resonance() alone moves double bonds and leaves atoms whose stored
     hybridization label is not what their bonds mean (the labels were right before the call)"""
     try:
         x = make()
